@@ -78,6 +78,21 @@ def gen(ctx):
                     for kanji in ((0, 1) if k in ('kanji', 'byte') or r.chance(1, 4) else (r.below(2),)):
                         for prio in ((0, 1, 2) if sym == 'rm' else (0,)):
                             add(sym, level, kanji, prio, p)
+            # mixed-mode payloads whose standard bit length is EXACTLY the capacity, or 1-2 bits below it
+            for spare in ((0, 1, 2) if (ctx.tier == 'thorough' or sym != 'qr' or (ci + ctx.seed) % 3 == 0) else (0,)):
+                segs = symgen.exact_fill(sym, r, ver, level, spare)
+                if segs:
+                    p = b''.join(d for _, d in segs)
+                    if len(p) < 3000 or ctx.tier == 'thorough':
+                        for kanji in (0, 1):
+                            add(sym, level, kanji, r.below(3), p)
+            # small symbols: EVERY list of up to three segments (different adjacent kinds) that fills the symbol exactly or leaves
+            # one bit, as a payload (New segments it again; with the cost model's ties most come back as generated)
+            if sym == 'mq' or (sym == 'qr' and ver <= 2 and ctx.tier == 'thorough') or (sym == 'rm' and ver in (0, 10) and ctx.tier == 'thorough'):
+                for spare in (0, 1):
+                    for lst in symgen.exact_lists(sym, ver, level, spare, 3, 400):
+                        p = b''.join(symgen.payload(r, k, n) for k, n in lst)
+                        add(sym, level, 1 if any(k == 'kanji' for k, _ in lst) else r.below(2), r.below(3), p)
             # mixed payload near the capacity
             for _ in range(1 if ctx.tier == 'quick' else 4):
                 segs = symgen.random_segs(sym, r, ver, level)
